@@ -18,6 +18,7 @@ func checkC06(c *an.Ctx) {
 	c.Rule("C06.2", "compile nesting (E3): CompileCommand is called in a loop over t.Commands nested inside the loop over t.GetVariations(), with the current command; each compiled job is linked behind the previous one exactly once")
 	c.Rule("C06.3", "execute table (E2): err=nil → next job; exit status ∧ allow_failure → next job; exit status ∧ ¬allow_failure → errored, return; not an exit status → errored, return; the next job is current.Next; Execute gets the current job")
 	c.Rule("C06.4", "hooks (E2): a failing before command returns its error at once; a failing after command never returns an error and never leaves the loop")
+	c.Rule("C06.5", "the configured policy reaches the runner (E4 who-may-write): outside pkg/task and internal/config no function writes Commands, Before, After, Condition, AllowFailure, Variations, Timeout, Context, Interactive, ExportAs or Name of a task it did not build from scratch — the per-stage and per-event copies differ from the configured task in env, variables and dir only")
 	c.NotDecided = append(c.NotDecided, "that the interpreter waits for each command (third party)", "GetVariations' one-empty-variation default (a value fact, covered by the existing tests)")
 	r := resolveRunner(c, "C06.0")
 	if !r.ok {
@@ -29,6 +30,47 @@ func checkC06(c *an.Ctx) {
 	compileNesting(c, r, "C06.2")
 	executeTable(c, r, "C06.3", false)
 	checkRunTable(c, "C06.4", map[string]bool{"hooks": true})
+	taskPolicyUntouched(c, "C06.5")
+}
+
+// taskPolicyUntouched checks C06.5: outside the packages that define and build tasks (pkg/task,
+// internal/config) and outside TaskRunner.Run's own result bookkeeping, no field of a task.Task that
+// decides how its commands are run — Commands, Before, After, Condition, AllowFailure, Variations,
+// Timeout, Context, Interactive — is written. The scheduler and the watcher run a copy of the task
+// that may differ in env, variables and dir only.
+func taskPolicyUntouched(c *an.Ctx, rule string) {
+	p := c.P
+	policy := map[string]bool{"Commands": true, "Before": true, "After": true, "Condition": true, "AllowFailure": true,
+		"Variations": true, "Timeout": true, "Context": true, "Interactive": true, "ExportAs": true, "Name": true}
+	n := 0
+	for _, fn := range p.Funcs {
+		if !an.InModule(fn) || inPkgs("pkg/task", "internal/config")(fn) {
+			continue
+		}
+		an.EachInstr(fn, func(in ssa.Instruction) {
+			st, ok := in.(*ssa.Store)
+			if !ok {
+				return
+			}
+			fa, ok := st.Addr.(*ssa.FieldAddr)
+			if !ok || !an.TypeIs(fa.X.Type(), "pkg/task", "Task") {
+				return
+			}
+			f := strings.TrimPrefix(an.TypeField(fa), "Task.")
+			if !policy[f] {
+				return
+			}
+			// a task the function builds from scratch (not a copy of a configured one) is its own business
+			if fresh, copied := an.FreshBase(fa.X); fresh && !copied {
+				return
+			}
+			n++
+			c.Bad(rule, an.Short(fn)+":write(Task."+f+")", st.Pos(), "%s changes %s of a task it did not build: the task then runs with a command list / failure policy / timeout other than the one it was configured with", an.Short(fn), "Task."+f)
+		})
+	}
+	if n == 0 {
+		c.OK(rule, "module:task-policy", token.NoPos, "no function outside pkg/task and internal/config writes a policy field of a task it did not build")
+	}
 }
 
 func compileNesting(c *an.Ctx, r *runnerRoles, rule string) {
